@@ -43,10 +43,13 @@ class Gen:
     # expressions are ASTs: ('col', table_alias, name, type) | ('lit', value, type) | (op, args...)
     def int_expr(self, cols, depth=0):
         ic = [c for c in cols if c[3] == 'I']
-        if depth >= 1 or self.chance(0.6):
+        if depth >= (2 if self.rich else 1) or self.chance(0.6):
             if ic and self.chance(0.75):
                 return self.pick(ic)
             return ('lit', self.pick([0, 1, 2, 3, -1]), 'I')
+        if self.rich and self.chance(0.3):
+            # CASE WHEN c THEN a [ELSE b] END
+            return ('case', self.bool_expr(cols, 2), self.int_expr(cols, depth + 1), self.int_expr(cols, depth + 1) if self.chance(0.7) else None)
         op = self.pick(['+', '-', '*'])
         return (op, self.int_expr(cols, depth + 1), self.int_expr(cols, depth + 1))
 
@@ -66,6 +69,11 @@ class Gen:
                     ([('lit', None, 'I')] if self.chance(0.25) else []))
         if allow_sub and r < 0.75:
             return self.subquery_pred(cols, allow_sub)
+        if self.rich and self.chance(0.2):
+            lo, hi = self.int_expr(cols, 1), self.int_expr(cols, 1)
+            if self.chance(0.1):
+                lo = ('lit', None, 'I')
+            return ('between' if self.chance(0.6) else 'notbetween', self.int_expr(cols, 1), lo, hi)
         a, b = self.int_expr(cols, 1), self.int_expr(cols, 1)
         if self.chance(0.08):
             b = ('lit', None, 'I')
@@ -191,6 +199,10 @@ def e_sql(e):
         return '%s(%s)' % (f, e_sql(a))
     if k in ('+', '-', '*', '=', '<>', '<', '<=', '>', '>='):
         return '(%s %s %s)' % (e_sql(e[1]), k, e_sql(e[2]))
+    if k in ('between', 'notbetween'):
+        return '(%s %sBETWEEN %s AND %s)' % (e_sql(e[1]), 'NOT ' if k == 'notbetween' else '', e_sql(e[2]), e_sql(e[3]))
+    if k == 'case':
+        return '(CASE WHEN %s THEN %s%s END)' % (e_sql(e[1]), e_sql(e[2]), '' if e[3] is None else ' ELSE ' + e_sql(e[3]))
     raise ValueError(k)
 
 
